@@ -80,6 +80,12 @@ MUTANTS = [
     ("C09-mismatch-not-dropped", "Q1a", "verify_metadata falls through after a mismatch",
      [(CD + "celestia/verify.rs", "            info!(reason = %error, \"failed to verify metadata retrieved from Celestia; dropping it\");\n            return None;\n",
        "            info!(reason = %error, \"failed to verify metadata retrieved from Celestia; dropping it\");\n", 0)]),
+    ("C09-quorum-nonstrict", "Q2|strict-compare", "exactly 2/3 of the voting power accepted",
+     [(CD + "celestia/block_verifier.rs", "    u128::from(commited) * 3 > u128::from(total) * 2",
+       "    u128::from(commited) * 3 >= u128::from(total) * 2", 0)]),
+    ("C09-quorum-half", "Q2|factors", "simple majority accepted as quorum",
+     [(CD + "celestia/block_verifier.rs", "    u128::from(commited) * 3 > u128::from(total) * 2",
+       "    u128::from(commited) * 2 > u128::from(total)", 0)]),
     ("C09-divide-first", "Q2", "quorum threshold divides before multiplying",
      [(CD + "celestia/block_verifier.rs", "    u128::from(commited) * 3 > u128::from(total) * 2", "    commited > total / 3 * 2", 0)]),
     ("C09-foreign-rollup-accepted", "Q4", "rollup id of the blob is not compared",
